@@ -3,6 +3,7 @@ mod calls;
 mod docs;
 mod project;
 mod subsets;
+mod variants;
 mod fraction;
 mod prec;
 mod sym;
@@ -19,6 +20,7 @@ fn main() {
         "calls" => calls::main(&args[1..]),
         "docs" => docs::main(&args[1..]),
         "subsets" => subsets::main(&args[1..]),
+        "variants" => variants::main(&args[1..]),
         "fraction" => fraction::main(&args[1..]),
         "selfcheck" => println!("ok"),
         _ => {
